@@ -408,6 +408,20 @@ func (s *Store) SeedSSA(obj runtime.Object, manager string) {
 	touchManager(md, manager, "Apply", "")
 }
 
+// SeedApplied records that `manager` has server-side applied exactly `cfg` (a partial
+// object: metadata/spec fields only) to an already seeded object, without touching the
+// other managers' records.
+func (s *Store) SeedApplied(gk schema.GroupKind, ns, name, manager string, cfg map[string]any) {
+	s.mu.Lock()
+	defer s.mu.Unlock()
+	e, ok := s.objs[objKey{gk, ns, name}]
+	if !ok {
+		return
+	}
+	e.applied[manager] = deepCopyMap(cfg)
+	touchManager(mdOf(e.obj), manager, "Apply", "")
+}
+
 // Remove deletes an object out of band (environment action).
 func (s *Store) Remove(gk schema.GroupKind, ns, name string) {
 	s.mu.Lock()
